@@ -223,6 +223,19 @@ def handle : List String → Option (Except String String)
         let (G, m, kmax) ← Tok.run (do let g ← parseGrammar Tok.ext; let m ← parseMethod; let k ← Tok.nat; pure (g, m, k)) rest
         pure (showOutcome toString (sumProducts realSR Impl.realStar G m kmax))
       | _ => throw "bad semiring"
+  | "P.sumProductsTol" :: rest => some do
+      -- the Real semiring with the stopping test of `MultiTensor.allclose(other, tol)` for tol > 0: every cell within `tol`
+      -- ABSOLUTELY (`atol=tol, rtol=0`; equal infinities are close): the driver loop is `sumProducts` itself, run with this
+      -- tolerant comparison in place of the exact one
+      let (G, m, kmax, tol) ← Tok.run (do
+        let g ← parseGrammar Tok.ext; let m ← parseMethod; let k ← Tok.nat; let t ← Tok.rat; pure (g, m, k, t)) rest
+      let close : Ext → Ext → Bool := fun a b =>
+        match a, b with
+        | Ext.fin p, Ext.fin q => decide ((if p ≤ q then q - p else p - q) ≤ tol)
+        | Ext.nan, _ => false
+        | _, Ext.nan => false
+        | a, b => a == b
+      pure (showOutcome toString (@sumProducts Ext ⟨close⟩ realSR Impl.realStar G m kmax))
   | "P.jac" :: sr :: rest => some do
       -- Jacobian blocks J[X,Y] at the value x, for all X, Y
       match sr with
